@@ -142,7 +142,7 @@ def oracle_factory(ctx):
 # (paths may also index into lists: this.v[0] - the key 0 is as good as any other)
 THIS_LEAVES = [["this", ["a"], "attr"], ["this", ["b"], "item"], ["this", ["_", "c"], "attr"], ["this", ["v", 0], "item"], ["this", ["v", 1], "item"]]
 OBJ_LEAVES = [["obj", []]]
-CONST_LEAVES = [["const", v] for v in (-2, 0, 1, 2, 3, True, "s", b"x", 1.5)]
+CONST_LEAVES = [["const", v] for v in (-2, 0, 1, 2, 3, True, "s", b"x", 1.5, (2,), (1, 2), ())]
 
 
 def contexts_small(vals=(-2, -1, 0, 1, 2, 3)):
@@ -257,7 +257,7 @@ def leaves_for(root):
     else:
         ph = st.sampled_from([["obj", []], ["obj", []], ["obj", ["x"]], ["obj", [0]], ["obj", [0, 1]]])
     consts = st.one_of(st.integers(-3, 6), st.booleans(), st.sampled_from(["", "s", "q"]), st.sampled_from([b"", b"x"]),
-                       st.sampled_from([0.5, -1.0, 2.0])).map(lambda v: ["const", v])
+                       st.sampled_from([0.5, -1.0, 2.0]), st.sampled_from([(), (1,), (2, 3), ("s",)])).map(lambda v: ["const", v])
     return ph, consts
 
 
